@@ -41,9 +41,6 @@ def insertSorted {α : Type} (le : α → α → Bool) (a : α) : List α → Li
 
 def sortBy {α : Type} (le : α → α → Bool) (l : List α) : List α := l.foldr (insertSorted le) []
 
-/-- CPython's iteration order of a set of small non-negative ints without collisions -/
-def ascending (l : List Int) : List Int := sortBy (fun a b => decide (a ≤ b)) l
-
 def showTrace : Trace → String
   | .pairs _ _ ps =>
     "P:" ++ (if ps.isEmpty then "-" else ",".intercalate (ps.map fun p => s!"{p.1}-{p.2}"))
